@@ -47,17 +47,17 @@ ASSUMPTIONS = [
     "one compile-relevant option differs per environment pair",
 ]
 NSHARDS = {"quick": 16, "thorough": 16}
-BUDGET_S = {"quick": 30, "thorough": 600}
+BUDGET_S = {"quick": 45, "thorough": 600}
 FLOORS = {
-    "quick": {"evaluations": 3000, "distinct": 1500,
-              "counters": {"crash_cases": 100, "crash_confirmed": 100, "crash_write_events": 40,
-                           "crash_audit_events": 40, "reader_loads": 200, "trunc_offsets": 1000,
-                           "header_byte_flips": 10, "foreign_version_entries": 4,
-                           "shared_histories": 600, "shared_loads": 1500, "shared_cache_hits": 300,
-                           "memcached_loads": 1000, "memcached_client_get": 1000,
-                           "memcached_client_set": 300}},
+    "quick": {"evaluations": 5000, "distinct": 2500,
+              "counters": {"crash_cases": 35, "real_deaths": 4, "crash_write_events": 23,
+                           "crash_audit_events": 12, "reader_loads": 80, "trunc_offsets": 1000,
+                           "header_byte_flips": 30, "foreign_version_entries": 14,
+                           "shared_histories": 600, "shared_loads": 1250, "shared_cache_hits": 230,
+                           "memcached_loads": 1800, "memcached_client_get": 2600,
+                           "memcached_client_set": 2500}},
     "thorough": {"evaluations": 20000, "distinct": 8000,
-                 "counters": {"crash_cases": 300, "crash_confirmed": 300, "crash_write_events": 100,
+                 "counters": {"crash_cases": 70, "real_deaths": 60, "crash_write_events": 100,
                               "crash_audit_events": 100, "reader_loads": 600, "trunc_offsets": 6000,
                               "header_byte_flips": 30, "foreign_version_entries": 10,
                               "shared_histories": 4000, "shared_loads": 10000,
@@ -136,11 +136,18 @@ def region_of(off, regions):
     return "header"
 
 
+def scratch_dir(prefix):
+    """tempfile.mkdtemp, on tmpfs when there is one (the disk under /tmp is slow and shared)."""
+    shm = "/dev/shm"
+    base = shm if os.path.isdir(shm) and os.access(shm, os.W_OK | os.X_OK) else None
+    return tempfile.mkdtemp(prefix=prefix, dir=base)
+
+
 class Store:
     """A cache directory + source directory pair owned by the harness."""
 
     def __init__(self):
-        self.root = tempfile.mkdtemp(prefix="vt_c27_")
+        self.root = scratch_dir("vt_c27_")
         self.n = 0
 
     def fresh(self):
@@ -332,7 +339,10 @@ def crash_series(ctx, store, tname, lk, prior, flush, want, real_deaths):
                 c2, s2 = setup_series(ctx, store, tname, lk, prior)
                 try:
                     a2 = writer_args(c2, s2, lk, TEMPLATES[tname][1], flush, crash_at=k)
+                    tf = ctx.elapsed()
                     rc, out = forked(K.writer, a2)
+                    ctx.extra["shard_seconds_in_fork"] = round(
+                        ctx.extra.get("shard_seconds_in_fork", 0) + ctx.elapsed() - tf, 2)
                     rec2 = read_log(a2)
                     if rc != 77 or rec2 is None or rec2["completed"]:
                         ctx.count("real_death_not_reached")
@@ -368,10 +378,9 @@ def part_crash(ctx, store, quick):
             if ctx.out_of_time():
                 ctx.inconc("time box hit inside the crash-point enumeration")
                 return
-            # process deaths are expensive here: quick kills for real at one series' points
-            # (spread over the shards), thorough at every point
-            real = (lambda k: True) if not quick else \
-                (lambda k, _s=si: _s in (3, 4, 9))
+            # process creation is very expensive on the shared machine: quick kills for real
+            # at the 16 points of one series (one per shard), thorough at every point
+            real = (lambda k: True) if not quick else (lambda k, _s=si: _s == 4)
             crash_series(ctx, store, tname, lk, prior, flush,
                          want=lambda k, _s=si: ctx.mine(_s * 400 + k), real_deaths=real)
 
@@ -449,11 +458,11 @@ def foreign_buckets(code, checksum):
 def part_damaged(ctx, store, quick):
     import jinja2.bccache as B
 
-    plan = [("small", "dict", 1), ("combined", "dict", 1), ("medium", "fs", 1)]
+    plan = [("small", "dict", 1), ("combined", "dict", 1), ("small", "fs", 1)]
     if quick:
         plan += [("big", "dict", 97)]
     else:
-        plan += [("medium", "dict", 1), ("small", "fs", 1), ("combined", "fs", 1), ("big", "dict", 7),
+        plan += [("medium", "dict", 1), ("medium", "fs", 1), ("combined", "fs", 1), ("big", "dict", 7),
                  ("big", "fs", 13)]
     cache_dir, src_dir = store.fresh()
     idx = 0
@@ -800,6 +809,8 @@ def part_memcached(ctx, quick):
                                 mem_script(ctx, {"part": "mem", "tname": tname, "ignore": ignore,
                                                  "script": script, "timeout": timeout})
             # every truncation offset of the stored value
+            if quick and tname != "small":
+                continue
             for off in range(n):
                 idx += 1
                 if not ctx.mine(idx):
@@ -830,10 +841,13 @@ def run(ctx):
     store = Store()
     try:
         warm()
-        part_crash(ctx, store, quick)
-        part_damaged(ctx, store, quick)
-        part_shared(ctx, store, quick)
-        part_memcached(ctx, quick)
+        for name, fn in (("crash", lambda: part_crash(ctx, store, quick)),
+                         ("damaged", lambda: part_damaged(ctx, store, quick)),
+                         ("shared", lambda: part_shared(ctx, store, quick)),
+                         ("memcached", lambda: part_memcached(ctx, quick))):
+            t0 = ctx.elapsed()
+            fn()
+            ctx.extra[f"shard_seconds_{name}"] = round(ctx.elapsed() - t0, 2)
     finally:
         store.close()
 
